@@ -40,6 +40,12 @@ def model_apply(state, op):
             return ("err", "NamingError")
         state[name] = (uri, frozenset())
         return ("ok", None)
+    if k == "register_meta":
+        _, name, uri, safe, tag = op
+        if safe and name in state:
+            return ("err", "NamingError")
+        state[name] = (uri, frozenset([tag]))
+        return ("ok", None)
     if k == "remove":
         _, name = op
         if name in state:
@@ -75,6 +81,8 @@ def real_apply(ns, op):
     try:
         if k == "register":
             return ("ok", ns.register(op[1], op[2], safe=op[3]))
+        if k == "register_meta":
+            return ("ok", ns.register(op[1], op[2], safe=op[3], metadata=[op[4]]))
         if k == "remove":
             return ("ok", ns.remove(name=op[1]))
         if k == "remove_prefix":
@@ -186,7 +194,7 @@ def check_trial(opset, initial, sch, records, final):
             by_name.setdefault(op[1], []).append(res)
     for name, results in by_name.items():
         others = [rec for rec in records if rec[1][0] != "register" or not rec[1][3] or rec[1][1] != name]
-        touches = [rec for rec in others if rec[1][0] in ("remove", "remove_prefix", "register") and (rec[1][1] == name or (rec[1][0] == "remove_prefix" and name.startswith(rec[1][1])))]
+        touches = [rec for rec in others if rec[1][0] in ("remove", "remove_prefix", "register", "register_meta") and (rec[1][1] == name or (rec[1][0] == "remove_prefix" and name.startswith(rec[1][1])))]
         if not touches and name not in initial:
             wins = sum(1 for r in results if r == ("ok", None))
             if wins != 1:
@@ -237,11 +245,16 @@ CATALOGUE = [
     (["x"], [[("register", "y", URI2, True)], [("list", "")], [("remove", "x")]]),
     (["x"], [[("set_metadata", "x", "m"), ("remove", "x")], [("register", "x", URI2, True)]]),
     (["x", "xy"], [[("remove_prefix", "x")], [("register", "x", URI2, True)], [("lookup", "xy")]]),
+    (["x"], [[("register_meta", "x", URI2, False, "m")], [("lookup", "x")]]),
+    (["x"], [[("remove", "x"), ("register_meta", "x", URI2, True, "m")], [("lookup", "x")]]),
+    ([], [[("register_meta", "x", URI1, True, "m")], [("register_meta", "x", URI2, True, "n")], [("lookup", "x")]]),
+    (["x", "xy"], [[("remove_prefix", "x")], [("list", "x")], [("remove_prefix", "x")]]),
 ]
 
 names = st.sampled_from(["x", "xy", "y"])
 op_st = st.one_of(
     st.tuples(st.just("register"), names, st.sampled_from([URI1, URI2]), st.booleans()),
+    st.tuples(st.just("register_meta"), names, st.sampled_from([URI1, URI2]), st.booleans(), st.sampled_from(["m", "n"])),
     st.tuples(st.just("remove"), names),
     st.tuples(st.just("remove_prefix"), st.sampled_from(["x", "y"])),
     st.tuples(st.just("set_metadata"), names, st.sampled_from(["m", "n"])),
